@@ -410,6 +410,105 @@ theorem whole_bisync_resumed (pol : Policy) (cfg : Cfg) (st : RState) (t : Targe
   have : r = runBisync pol cfg st t (flat gs) := resumed_is_whole_bisync _ _ _ _ _ _ _ hab
   rw [this]; exact whole_bisync pol cfg st t gs hg hk
 
+/-! ## the worker loops with DB selection (`runWorker` = rdbReplay / rdbReplayBisync): a snapshot over SEVERAL DBs
+
+  A key is a cell (db, key); the groups' cells are pairwise distinct; all chunks of
+  a key carry its DB (`oneDb`); the connection starts in DB `c` (= what the worker
+  believes). The worker issues SELECT whenever the next key's DB differs. The
+  effect of a group is evaluated on the target as seen from the key's DB. -/
+
+theorem whole_worker_plain (pol : Policy) (cfg : Cfg) (c : Nat) (st : RState) (t : Target) (gs : List KGroup)
+    (hc : t.cur = c) (hg : ∀ g ∈ gs, GoodGroup g ∧ g.oneDb) (hk : (gs.map KGroup.cell).Nodup) :
+    (∀ d k, (d, k) ∉ gs.map KGroup.cell →
+      (workerTarget t (runWorker false pol cfg c st t (flat gs))).ks d k = t.ks d k) ∧
+    ((∀ g ∈ gs, (plainEff pol cfg (t.inDb g.dbn) g).isStop = false) →
+      lastOut (runWorker false pol cfg c st t (flat gs)) = .ok ∧
+      ∀ g ∈ gs, (workerTarget t (runWorker false pol cfg c st t (flat gs))).ks g.dbn g.key
+        = (plainEff pol cfg (t.inDb g.dbn) g).result (t.ks g.dbn g.key)) ∧
+    (∀ pre g post out, gs = pre ++ g :: post → (∀ p ∈ pre, (plainEff pol cfg (t.inDb p.dbn) p).isStop = false) →
+      plainEff pol cfg (t.inDb g.dbn) g = .stop out →
+      lastOut (runWorker false pol cfg c st t (flat gs)) = out ∧
+      (∀ p ∈ pre, (workerTarget t (runWorker false pol cfg c st t (flat gs))).ks p.dbn p.key
+        = (plainEff pol cfg (t.inDb p.dbn) p).result (t.ks p.dbn p.key)) ∧
+      (∀ d k, (d, k) ∉ pre.map KGroup.cell →
+        (workerTarget t (runWorker false pol cfg c st t (flat gs))).ks d k = t.ks d k)) := by
+  obtain ⟨_, b2, b3⟩ := runWorker_is_runWG_plain pol cfg (flat gs) c st t
+  rw [b2, b3]
+  exact (plain_runner pol cfg).wholeW gs c st t hc hg hk
+
+theorem whole_worker_bisync (pol : Policy) (cfg : Cfg) (c : Nat) (st : RState) (t : Target) (gs : List KGroup)
+    (hc : t.cur = c) (hg : ∀ g ∈ gs, GoodGroup g ∧ g.oneDb) (hk : (gs.map KGroup.cell).Nodup) :
+    (∀ d k, (d, k) ∉ gs.map KGroup.cell →
+      (workerTarget t (runWorker true pol cfg c st t (flat gs))).ks d k = t.ks d k) ∧
+    ((∀ g ∈ gs, (bisyncEff pol cfg (t.inDb g.dbn) g).isStop = false) →
+      lastOut (runWorker true pol cfg c st t (flat gs)) = .ok ∧
+      ∀ g ∈ gs, (workerTarget t (runWorker true pol cfg c st t (flat gs))).ks g.dbn g.key
+        = (bisyncEff pol cfg (t.inDb g.dbn) g).result (t.ks g.dbn g.key)) ∧
+    (∀ pre g post out, gs = pre ++ g :: post → (∀ p ∈ pre, (bisyncEff pol cfg (t.inDb p.dbn) p).isStop = false) →
+      bisyncEff pol cfg (t.inDb g.dbn) g = .stop out →
+      lastOut (runWorker true pol cfg c st t (flat gs)) = out ∧
+      (∀ p ∈ pre, (workerTarget t (runWorker true pol cfg c st t (flat gs))).ks p.dbn p.key
+        = (bisyncEff pol cfg (t.inDb p.dbn) p).result (t.ks p.dbn p.key)) ∧
+      (∀ d k, (d, k) ∉ pre.map KGroup.cell →
+        (workerTarget t (runWorker true pol cfg c st t (flat gs))).ks d k = t.ks d k)) := by
+  obtain ⟨_, b2, b3⟩ := runWorker_is_runWG_bisync pol cfg (flat gs) c st t
+  rw [b2, b3]
+  exact (bisync_runner pol cfg).wholeW gs c st t hc hg hk
+
+/-- **replace**, worker with DB selection, any number of DBs: every (db, key) of the
+    snapshot ends with the snapshot's value and expiry, every other cell is untouched -/
+theorem replace_whole_worker (cfg : Cfg) (c : Nat) (st : RState) (t : Target) (gs : List KGroup)
+    (hc : t.cur = c) (hg : ∀ g ∈ gs, GoodGroup g ∧ g.oneDb) (hk : (gs.map KGroup.cell).Nodup) :
+    lastOut (runWorker false .replace cfg c st t (flat gs)) = .ok ∧
+    (∀ g ∈ gs, (workerTarget t (runWorker false .replace cfg c st t (flat gs))).ks g.dbn g.key
+      = some (snapshotObj cfg t g.1 g.2)) ∧
+    (∀ d k, (d, k) ∉ gs.map KGroup.cell →
+      (workerTarget t (runWorker false .replace cfg c st t (flat gs))).ks d k = t.ks d k) := by
+  obtain ⟨h1, h2, _⟩ := whole_worker_plain .replace cfg c st t gs hc hg hk
+  obtain ⟨o1, o2⟩ := h2 (fun g _ => rfl)
+  exact ⟨o1, fun g hg' => o2 g hg', h1⟩
+
+/-- **ignore**, worker with DB selection: a cell the target held is exactly as it was, the others get the snapshot's value -/
+theorem ignore_whole_worker (cfg : Cfg) (c : Nat) (st : RState) (t : Target) (gs : List KGroup)
+    (hc : t.cur = c) (hg : ∀ g ∈ gs, GoodGroup g ∧ g.oneDb) (hk : (gs.map KGroup.cell).Nodup) :
+    lastOut (runWorker false .ignore cfg c st t (flat gs)) = .ok ∧
+    (∀ g ∈ gs, ∀ o, t.ks g.dbn g.key = some o →
+      (workerTarget t (runWorker false .ignore cfg c st t (flat gs))).ks g.dbn g.key = some o) ∧
+    (∀ g ∈ gs, t.ks g.dbn g.key = none →
+      (workerTarget t (runWorker false .ignore cfg c st t (flat gs))).ks g.dbn g.key = some (snapshotObj cfg t g.1 g.2)) ∧
+    (∀ d k, (d, k) ∉ gs.map KGroup.cell →
+      (workerTarget t (runWorker false .ignore cfg c st t (flat gs))).ks d k = t.ks d k) := by
+  obtain ⟨h1, h2, _⟩ := whole_worker_plain .ignore cfg c st t gs hc hg hk
+  obtain ⟨o1, o2⟩ := h2 (fun g _ => by simp only [plainEff]; split <;> rfl)
+  refine ⟨o1, ?_, ?_, h1⟩
+  · intro g hg' o ho
+    have : (t.inDb g.dbn).get g.key = some o := ho
+    rw [o2 g hg']; simp [plainEff, this, Eff.result, ho]
+  · intro g hg' ho
+    have : (t.inDb g.dbn).get g.key = none := ho
+    have hs : snapshotObj cfg (t.inDb g.dbn) g.1 g.2 = snapshotObj cfg t g.1 g.2 := rfl
+    rw [o2 g hg']; simp [plainEff, this, Eff.result, hs]
+
+/-- **error**, worker with DB selection: stops at the first cell the target holds; nothing but the cells before it changed -/
+theorem error_whole_stop_worker (cfg : Cfg) (c : Nat) (st : RState) (t : Target) (pre post : List KGroup) (g : KGroup) (o : Obj)
+    (hc : t.cur = c) (hg : ∀ x ∈ pre ++ g :: post, GoodGroup x ∧ x.oneDb)
+    (hk : ((pre ++ g :: post).map KGroup.cell).Nodup)
+    (hnone : ∀ p ∈ pre, t.ks p.dbn p.key = none) (hex : t.ks g.dbn g.key = some o) :
+    lastOut (runWorker false .error cfg c st t (flat (pre ++ g :: post))) = .errExists ∧
+    (∀ p ∈ pre, (workerTarget t (runWorker false .error cfg c st t (flat (pre ++ g :: post)))).ks p.dbn p.key
+      = some (snapshotObj cfg t p.1 p.2)) ∧
+    (∀ d k, (d, k) ∉ pre.map KGroup.cell →
+      (workerTarget t (runWorker false .error cfg c st t (flat (pre ++ g :: post)))).ks d k = t.ks d k) := by
+  obtain ⟨_, _, h3⟩ := whole_worker_plain .error cfg c st t (pre ++ g :: post) hc hg hk
+  have hn : ∀ p ∈ pre, (t.inDb p.dbn).get p.key = none := hnone
+  have hx : (t.inDb g.dbn).get g.key = some o := hex
+  obtain ⟨o1, o2, o3⟩ := h3 pre g post .errExists rfl
+    (fun p hp => by simp [plainEff, hn p hp, Eff.isStop]) (by simp [plainEff, hx])
+  refine ⟨o1, ?_, o3⟩
+  intro p hp
+  have hs : snapshotObj cfg (t.inDb p.dbn) p.1 p.2 = snapshotObj cfg t p.1 p.2 := rfl
+  rw [o2 p hp]; simp [plainEff, hn p hp, Eff.result, hs]
+
 /-! ## non-vacuity: a snapshot of two keys — `h` in three chunks (held by the target), `i` small enough for RESTORE (absent) -/
 
 def exG1 : KGroup := (exE0, [exE1, exE2])
@@ -469,5 +568,28 @@ def exTBadK : Target := { exT with bad := fun k => k == [105] }
 example : (runBisync .replace exCfg none exTBadK (flat ([exG1] ++ exG2 :: []))).out = .errBad :=
   (bad_data_whole_bisync .replace exCfg none exTBadK [exG1] [] exG2 ex_good'' (by decide) (by intro p hp; simp at hp; subst hp; decide) (by decide) (by decide) (Or.inr rfl)).1
 example : (runBisync .replace exCfg none exTBadK [exE0, exE1, exE2, exK]).tgt.get [105] = none := by decide
+
+-- several DBs: the key NAME `h` also in DB 1 (absent there); the connection starts in DB 0
+def exR1 : Entry := { exR with db := 1 }
+def exG3 : KGroup := (exR1, [])
+theorem exG3_good : GoodGroup exG3 :=
+  ⟨⟨rfl, rfl, by simp [exG3], by simp [exG3]⟩,
+   ⟨by intro c hc; simp [exG3, exR1, exR] at hc; rcases hc with rfl | rfl <;> rfl, by simp [exG3, exR1, exR],
+    by simp [exG3], by simp [exG3]⟩⟩
+theorem ex_goodW : ∀ g ∈ [exG1, exG3], GoodGroup g ∧ g.oneDb := by
+  intro g hg; simp at hg; rcases hg with rfl | rfl
+  · refine ⟨exG1_good, ?_⟩
+    intro e he; simp [KGroup.entries, exG1] at he; rcases he with rfl | rfl | rfl <;> rfl
+  · refine ⟨exG3_good, ?_⟩
+    intro e he; simp [KGroup.entries, exG3] at he; subst he; rfl
+example : ([exG1, exG3].map KGroup.cell).Nodup := by decide
+example : (workerTarget exT (runWorker false .ignore exCfg 0 none exT (flat [exG1, exG3]))).ks 0 [104]
+    = some { val := .old 0, exp := 777 } :=
+  (ignore_whole_worker exCfg 0 none exT [exG1, exG3] rfl ex_goodW (by decide)).2.1 exG1 (by simp) _ rfl
+example : (workerTarget exT (runWorker false .ignore exCfg 0 none exT (flat [exG1, exG3]))).ks 1 [104]
+    = some (snapshotObj exCfg exT exR1 []) :=
+  (ignore_whole_worker exCfg 0 none exT [exG1, exG3] rfl ex_goodW (by decide)).2.2.1 exG3 (by simp) rfl
+example : (runWorker false .ignore exCfg 0 none exT [exE0, exE1, exE2, exR1]).flatMap (·.1)
+    = [Req.exists [104], Req.select 1, Req.restore [104] 4000 [4, 3] [] false] := by decide
 
 end GunYu.Props.C20
